@@ -39,7 +39,10 @@ GROUPS = {
     ("src/arch/all/rabinkarp.rs", r"impl Finder \{", "Finder", ["new"]),
     ("src/arch/all/rabinkarp.rs", r"impl FinderRev \{", "FinderRev", ["new"])],
   "Swar": [
-    ("src/arch/all/memchr.rs", None, "swar", ["splat", "has_zero_byte"])],
+    ("src/arch/all/memchr.rs", None, "swar", ["splat", "has_zero_byte"]),
+    ("src/arch/all/memchr.rs", r"impl One \{", "One", ["new", "has_needle", "confirm"]),
+    ("src/arch/all/memchr.rs", r"impl Two \{", "Two", ["new", "has_needle", "confirm"]),
+    ("src/arch/all/memchr.rs", r"impl Three \{", "Three", ["new", "has_needle", "confirm"])],
   "ByteSet": [
     ("src/arch/all/twoway.rs", r"impl ApproximateByteSet \{", "ApproximateByteSet", ["new", "contains"])],
   "Mask": [
@@ -99,7 +102,7 @@ ORACLES = {
 STRUCTS = {
     "Prefilter": {"PrefilterState": "src/memmem/searcher.rs"},
     "RabinKarp": {"Hash": "src/arch/all/rabinkarp.rs", "Finder": "src/arch/all/rabinkarp.rs", "FinderRev": "src/arch/all/rabinkarp.rs"},
-    "Swar": {},
+    "Swar": {"One": "src/arch/all/memchr.rs", "Two": "src/arch/all/memchr.rs", "Three": "src/arch/all/memchr.rs"},
     "ByteSet": {"ApproximateByteSet": "src/arch/all/twoway.rs"},
     "Mask": {"SensibleMoveMask": "src/vector.rs", "NeonMoveMask": "src/vector.rs"},
     "Pair": {"Pair": "src/arch/all/packedpair/mod.rs"},
@@ -1001,6 +1004,10 @@ class Tr:
         if len(path) == 2 and path[0] == "Self":
             key = (self.prefix, name)
         sig = self.fnsigs.get(key)
+        if sig is None and len(path) == 1:
+            cands = [k_ for k_ in self.fnsigs if k_[1] == name and not self.fnsigs[k_]["selfmode"]]
+            if len(cands) == 1:       # a module-level function called from inside an impl
+                key = cands[0]; sig = self.fnsigs[key]
         if sig and not sig["selfmode"]:
             ras = [self.expr(a, env, pt) for a, (_, pt) in zip(args, sig["params"])]
             if len(ras) != len(sig["params"]):
@@ -1809,7 +1816,7 @@ def translate(repo, group, _emit=True):
                 try:
                     val = int(cm.group(3).replace("_", "").strip(), 0)
                 except ValueError:
-                    raise TieBroken(f"{what}: associated constant {cm.group(1)} is not a literal")
+                    continue      # not a literal: unknown to the translation; a kernel that uses it fails closed ("unknown path")
                 env[cm.group(1)] = [(f"{val}%N", cm.group(2))]
                 env[prefix + "::" + cm.group(1)] = env[cm.group(1)]
                 env["Self::" + cm.group(1)] = env[cm.group(1)]
